@@ -340,4 +340,39 @@ theorem chain_fuel (g : List (Nat × Nat)) (c k : Nat) :
     have e : g.length + 1 + (k + 1) = (g.length + 1 + k) + 1 := by omega
     rw [e, chain_stable g _ c (by have := chain_length_le g (g.length + 1 + k) c; omega), ih]
 
+/-! ### The precomputed cut graph used by the driver -/
+
+theorem nxt_filter_key (g : List (Nat × Nat)) (q : Nat → Bool) (c : Nat) :
+    nxt (g.filter (fun e => q e.1)) c = if q c = true then nxt g c else none := by
+  induction g with
+  | nil => simp [nxt]
+  | cons e t ih =>
+    obtain ⟨a, b⟩ := e
+    by_cases hq : q a = true
+    · simp only [List.filter_cons, hq, if_true, nxt, ih]
+      by_cases hac : a = c
+      · subst hac; simp [hq]
+      · simp [hac]
+    · simp only [List.filter_cons, hq, Bool.false_eq_true, if_false, nxt, ih]
+      by_cases hac : a = c
+      · subst hac; simp [hq]
+      · simp [hac]
+
+theorem nxt_cutList (g : List (Nat × Nat)) (c : Nat) : nxt (cutList g) c = cutNxt g c := by
+  have := nxt_filter_key g (fun a => !isCut g a) c
+  simp only [cutList, cutNxt]
+  rw [this]
+  by_cases h : isCut g c = true <;> simp [h]
+
+theorem nlGetFast_eq (g : List (Nat × Nat)) (c : Nat) : nlGetFast g (cutList g) c = nlGet g c := by
+  simp only [nlGetFast, nlGet]
+  generalize g.length + 1 = n
+  induction n generalizing c with
+  | zero => rfl
+  | succ n ih =>
+    simp only [chainL, chain, nxt_cutList]
+    cases cutNxt g c with
+    | none => rfl
+    | some d => simp [ih d]
+
 end C17
